@@ -298,6 +298,78 @@ def r03_3(ctx: Ctx, rep: Report, pairs=SIBLINGS[:2], rid: str = "R03.3") -> None
             rep.violation(a, f"{x}  <>  {y}", f"source and destination helpers disagree (first difference after src↔dst normalisation, {b} on the right)", where(fa))
 
 
+def _interval_operators(ctx: Ctx) -> Set[str]:
+    """Operators whose port set is a single interval (C08 forward shapes): range, gt, lt."""
+    from .c08 import forward_shape, op_paths
+    from .normalise import normalised
+
+    fwd = normalised(ctx, ctx.func("Port._items_to_ports"), "unroll,beta")
+    operators = list(ctx.folder.const("helpers", "OPERATORS"))
+    out: Set[str] = set()
+    for op, ps in op_paths(ctx, fwd, operators).items():
+        normal = [p for p in ps if not p.raises]
+        if op in operators and normal and forward_shape(ctx, fwd, normal[0], fwd.params[1])["kind"] == "INTERVAL":
+            out.add(op)
+    return out
+
+
+def _bounds_cover(e: Optional[ast.AST], other: str, field: str, h: Func) -> Optional[bool]:
+    """None: not a bounds comparison.  True: `top.low <= bottom.low and bottom.high <= top.high` (top from other, bottom
+    from self, ports of `field`).  False: a bounds comparison that is not this one."""
+    if not (isinstance(e, ast.BoolOp) and isinstance(e.op, ast.And) and len(e.values) == 2):
+        return None
+    rel = {}
+    for v in e.values:
+        if not (isinstance(v, ast.Compare) and len(v.ops) == 1 and isinstance(v.ops[0], (ast.LtE, ast.GtE))):
+            return None
+        l, r = v.left, v.comparators[0]
+        if isinstance(v.ops[0], ast.GtE):
+            l, r = r, l
+        # l <= r ; each side X.<field>.ports[0|-1] or min()/max()
+        def side(x):
+            end = None
+            if isinstance(x, ast.Subscript) and isinstance(x.slice, (ast.Constant, ast.UnaryOp)):
+                end = "low" if src(x.slice) == "0" else "high" if src(x.slice) == "-1" else None
+                x = x.value
+            elif isinstance(x, ast.Call) and isinstance(x.func, ast.Name) and x.func.id in ("min", "max") and len(x.args) == 1:
+                end = "low" if x.func.id == "min" else "high"
+                x = x.args[0]
+            c = chain(x)
+            if end is None or not c or len(c) < 3 or norm_field(h.cls, c[1]) != field or c[-1].lstrip("_") != "ports":
+                return None
+            return ("top" if c[0] == other else "bottom" if c[0] == "self" else None, end)
+        a, b = side(l), side(r)
+        if a is None or b is None or a[0] is None or b[0] is None:
+            return None
+        rel[(a, b)] = True
+    want = {(("top", "low"), ("bottom", "low")), (("bottom", "high"), ("top", "high"))}
+    return set(rel) == want
+
+
+def _operators_on_path(ctx: Ctx, p, other: str, field: str, h: Func) -> Optional[Set[str]]:
+    """Operators the top entry's port expression can have on this path (from tests of other.<field>.operator)."""
+    ops = set(ctx.folder.const("helpers", "OPERATORS"))
+    seen = False
+    for test, truth in p.atoms:
+        t = deep_resolve(test, p.env)
+        if isinstance(t, ast.Compare) and len(t.ops) == 1:
+            c = chain(t.left)
+            if c and c[0] == other and len(c) >= 3 and norm_field(h.cls, c[1]) == field and c[-1].lstrip("_") == "operator":
+                cmp_ = t.comparators[0]
+                vals = None
+                if isinstance(cmp_, ast.Constant) and isinstance(cmp_.value, str):
+                    vals = {cmp_.value}
+                elif isinstance(cmp_, (ast.List, ast.Tuple, ast.Set)) and all(isinstance(e, ast.Constant) for e in cmp_.elts):
+                    vals = {e.value for e in cmp_.elts}
+                if vals is None:
+                    continue
+                positive = isinstance(t.ops[0], (ast.Eq, ast.In)) == truth
+                if isinstance(t.ops[0], (ast.Eq, ast.In, ast.NotEq, ast.NotIn)):
+                    ops = ops & vals if positive else ops - vals
+                    seen = True
+    return ops if seen else None
+
+
 # ------------------------------------------------------------------ R03.4 / R03.7
 def port_cover_rules(ctx: Ctx, rep: Report, h: Func, field: str, rid4: str = "R03.4", rid7: str = "R03.7", do7: bool = True) -> None:
     cfg = ctx.cfg(h)
@@ -339,6 +411,7 @@ def port_cover_rules(ctx: Ctx, rep: Report, h: Func, field: str, rid4: str = "R0
     rep.rule(rid7)
     rep.instance()
     found = False
+    interval_ops = _interval_operators(ctx)
     for p in paths:
         cands: List[ast.AST] = []
         if p.ret is not None and not isinstance(p.ret, ast.Constant):
@@ -346,6 +419,31 @@ def port_cover_rules(ctx: Ctx, rep: Report, h: Func, field: str, rid4: str = "R0
         for c in cands:
             inc = inclusion(c, p.env)
             if inc is None:
+                # a comparison of the lowest and highest port decides inclusion only when the top set is an interval
+                rc = deep_resolve(c, p.env)
+                bc = _bounds_cover(rc, other, field, h)
+                if bc is None and isinstance(rc, ast.Compare):
+                    # the conjunction was written as a guard plus a return: the other half held on this path
+                    for t_, tr_ in p.atoms:
+                        rt_ = deep_resolve(t_, p.env)
+                        if tr_ and isinstance(rt_, ast.Compare):
+                            cand = ast.BoolOp(op=ast.And(), values=[rt_, rc])
+                            b2 = _bounds_cover(cand, other, field, h)
+                            if b2 is not None:
+                                bc = b2
+                                break
+                if bc is not None:
+                    found = True
+                    ops = _operators_on_path(ctx, p, other, field, h)
+                    if not bc:
+                        rep.violation(h.qualname, snippet(c), "the bounds comparison runs the wrong way or mixes the two entries", where(h))
+                    elif ops is not None and ops <= interval_ops:
+                        rep.ok(f"{h.qualname}: {snippet(c, 60)}", f"bounds comparison on a path where the top operator is one of {sorted(ops)}: its port set is an interval", where=where(h))
+                    else:
+                        rep.violation(h.qualname, snippet(c), f"the lowest/highest ports are compared on a path where the top operator may be {sorted(ops - interval_ops) if ops is not None else 'anything'}: such a set has gaps (eq 80 443) and an entry inside a gap is reported covered", where(h), inp="top 'permit tcp any any eq 22 443', bottom 'permit tcp any any eq 80'")
+                elif not (isinstance(c, ast.Call) and isinstance(c.func, ast.Attribute) and src(c.func.value) in ("self", "cls")):
+                    rep.violation(h.qualname, snippet(c), "the answer on this path is not a set-inclusion test of the bottom ports in the top ports", where(h))
+                    found = True
                 continue
             found = True
             x, y, kind = inc
